@@ -26,6 +26,20 @@ pub enum PtTamper {
     Negated,
 }
 
+/// alteration of a 32-byte confirmation value in transit
+#[derive(Serialize, Deserialize, Hash, Debug, Clone, PartialEq, Eq)]
+pub enum STamper {
+    FlipBit(u8),
+    /// the same bit flipped in two different bytes (differences cancel under XOR)
+    FlipSameBitInTwoBytes(u8, u8, u8),
+    /// two bytes swapped (no effect when they are equal)
+    SwapBytes(u8, u8),
+    /// every byte replaced
+    Replace(u64),
+    /// first byte incremented
+    AddOne,
+}
+
 #[derive(Serialize, Deserialize, Hash, Debug, Clone)]
 pub struct Kex {
     pub da: Hex,
@@ -37,9 +51,9 @@ pub struct Kex {
     pub rb: Hex,
     pub t_ra: Option<PtTamper>,
     pub t_rb: Option<PtTamper>,
-    /// bit of S_B / S_A flipped in transit
-    pub t_sb: Option<u8>,
-    pub t_sa: Option<u8>,
+    /// S_B / S_A altered in transit
+    pub t_sb: Option<STamper>,
+    pub t_sa: Option<STamper>,
 }
 
 fn tamper_point(honest: &Pt<Fp>, lib_honest: &Point, t: &Option<PtTamper>) -> (Pt<Fp>, Point, bool, bool) {
@@ -70,10 +84,22 @@ fn tamper_point(honest: &Pt<Fp>, lib_honest: &Point, t: &Option<PtTamper>) -> (P
     }
 }
 
-fn flip(h: &[u8; 32], bit: &Option<u8>) -> [u8; 32] {
+fn flip(h: &[u8; 32], t: &Option<STamper>) -> [u8; 32] {
     let mut o = *h;
-    if let Some(b) = bit {
-        o[(*b / 8) as usize] ^= 0x80 >> (b % 8);
+    match t {
+        None => {}
+        Some(STamper::FlipBit(b)) => o[(*b / 8) as usize] ^= 0x80 >> (b % 8),
+        Some(STamper::FlipSameBitInTwoBytes(i, j, bit)) => {
+            let (i, mut j) = ((*i % 32) as usize, (*j % 32) as usize);
+            if i == j {
+                j = (j + 1) % 32;
+            }
+            o[i] ^= 1 << (bit % 8);
+            o[j] ^= 1 << (bit % 8);
+        }
+        Some(STamper::SwapBytes(i, j)) => o.swap((*i % 32) as usize, (*j % 32) as usize),
+        Some(STamper::Replace(seed)) => o.copy_from_slice(&expand_bytes(*seed, 32)),
+        Some(STamper::AddOne) => o[0] = o[0].wrapping_add(1),
     }
     o
 }
@@ -131,15 +157,16 @@ fn check(c: &Kex) -> CaseResult {
     // ---- in transit
     let (rb_seen_ref, rb_seen_lib, rb_altered, rb_on_curve) = tamper_point(&rb_ref, &rb_lib, &c.t_rb);
     let sb_seen = flip(&sb, &c.t_sb);
+    let sb_altered = sb_seen != sb;
     // ---- step 3 (A)
-    let a_must_fail = ra_altered || rb_altered || c.t_sb.is_some();
+    let a_must_fail = ra_altered || rb_altered || sb_altered;
     let r3 = outcome(|| alice.exchange_3(&rb_seen_lib, sb_seen));
     let honest_a = r2::key_agreement(true, &da, &ra, &pb, &rb_ref, &z_a, &z_b, c.klen).ok_or_else(|| Fail { key: "harness: reference A side infinity".into(), detail: "".into() })?;
     match &r3 {
         Outcome::Panic(p) => return fail(format!("entry=Exchange::exchange_3 input={} outcome=panic", if rb_on_curve { "on-curve-R_B" } else { "off-curve-R_B" }), p.clone()),
         Outcome::Ok(sa) => {
             ensure!(rb_on_curve, "entry=Exchange::exchange_3 input=off-curve-R_B outcome=accepted", "R_B = {} is not on the curve", show(&rb_seen_ref));
-            ensure!(!a_must_fail, "entry=Exchange::exchange_3 input=tampered outcome=accepted", "altered: R_A {} R_B {} S_B {} — A must report failure", ra_altered, rb_altered, c.t_sb.is_some());
+            ensure!(!a_must_fail, "entry=Exchange::exchange_3 input=tampered outcome=accepted", "altered: R_A {} R_B {} S_B {} ({:?}) — A must report failure", ra_altered, rb_altered, sb_altered, c.t_sb);
             ensure!(*sa == honest_a.s_a, "entry=Exchange::exchange_3 outcome=wrong-S_A", "library S_A {} ; GB/T 32918.3 (one-byte tag 0x03) {}", hex::encode(sa), hex::encode(honest_a.s_a));
             let ka = gm_sm2::verif_hooks::exchange_key(&alice);
             ensure!(ka.as_deref() == Some(&honest_a.key[..]), "entry=Exchange::exchange_3 outcome=wrong-key", "library K_A {:?} ; standard {}", ka.as_ref().map(hex::encode), hex::encode(&honest_a.key));
@@ -151,11 +178,12 @@ fn check(c: &Kex) -> CaseResult {
     }
     // ---- step 4 (B): B receives the S_A an honest A (with an honest view) sends, possibly altered in transit
     let sa_seen = flip(&honest_a.s_a, &c.t_sa);
-    let b_must_accept = !ra_altered && c.t_sa.is_none();
+    let sa_altered = sa_seen != honest_a.s_a;
+    let b_must_accept = !ra_altered && !sa_altered;
     let r4 = outcome(|| bob.exchange_4(sa_seen, &ra_seen_lib));
     match &r4 {
         Outcome::Panic(p) => return fail("entry=Exchange::exchange_4 outcome=panic", p.clone()),
-        Outcome::Ok(true) => ensure!(b_must_accept, "entry=Exchange::exchange_4 input=tampered outcome=accepted", "altered: R_A {} S_A {} — B must not accept", ra_altered, c.t_sa.is_some()),
+        Outcome::Ok(true) => ensure!(b_must_accept, "entry=Exchange::exchange_4 input=tampered outcome=accepted", "altered: R_A {} S_A {} ({:?}) — B must not accept", ra_altered, sa_altered, c.t_sa),
         Outcome::Ok(false) | Outcome::Err(_) => ensure!(!b_must_accept, "entry=Exchange::exchange_4 input=honest outcome=rejected", "nothing B sees was altered, but the confirmation failed: {}", r4.describe()),
     }
     let exact = true;
@@ -174,7 +202,14 @@ fn pt_tamper() -> impl Strategy<Value = Option<PtTamper>> {
 
 fn kex(tamper: bool) -> impl Strategy<Value = Kex> {
     let n = r2::params().n.clone();
-    let bit = || prop_oneof![3 => Just(None), 1 => any::<u8>().prop_map(Some)];
+    let bit = || prop_oneof![
+        4 => Just(None),
+        1 => any::<u8>().prop_map(|b| Some(STamper::FlipBit(b))),
+        1 => (any::<u8>(), any::<u8>(), any::<u8>()).prop_map(|(i, j, b)| Some(STamper::FlipSameBitInTwoBytes(i, j, b))),
+        1 => (any::<u8>(), any::<u8>()).prop_map(|(i, j)| Some(STamper::SwapBytes(i, j))),
+        1 => any::<u64>().prop_map(|s| Some(STamper::Replace(s))),
+        1 => Just(Some(STamper::AddOne)),
+    ];
     (
         (gen::secret_scalar(&(&n - 2u32)), gen::secret_scalar(&(&n - 2u32)), 0..id_pool().len(), 0..id_pool().len()),
         prop_oneof![3 => 1..=48usize, 1 => (1..=6usize).prop_map(|b| b * 32), 1 => 1..=200usize],
@@ -224,13 +259,14 @@ pub fn run(ctx: &Ctx) {
                 for kind in 0..4u8 {
                     let s = draw << 16 | (mask as u64) << 8 | kind as u64;
                     let sc = |t: u64, m: &BigUint| gen::hex32(&(from_be(&expand_bytes(s ^ t, 32)) % m + 1u32));
+                    let st = |x: u64| match kind { 0 => STamper::FlipBit((x % 256) as u8), 1 => STamper::FlipSameBitInTwoBytes((x % 32) as u8, (x / 32 % 31) as u8 + 1 + (x % 32) as u8, (x % 8) as u8), 2 => STamper::SwapBytes((x % 32) as u8, (x / 7 % 32) as u8), _ => STamper::Replace(x) };
                     let pt = |on: bool, salt: u64| if !on { None } else { Some(match kind { 0 => PtTamper::OtherValid(s ^ salt), 1 => PtTamper::OffCurve, 2 => PtTamper::Negated, _ => PtTamper::SameOtherZ(s ^ salt) }) };
                     v.push(Kex {
                         da: sc(1, &(n - 2u32)), db: sc(2, &(n - 2u32)), id_a: (s % 7) as usize, id_b: (s % 5) as usize, klen: 1 + (s % 70) as usize,
                         ra: sc(3, &(n - 1u32)), rb: sc(4, &(n - 1u32)),
                         t_ra: pt(mask & 1 != 0, 0x11), t_rb: pt(mask & 2 != 0, 0x22),
-                        t_sb: if mask & 4 != 0 { Some((s * 37 % 256) as u8) } else { None },
-                        t_sa: if mask & 8 != 0 { Some((s * 91 % 256) as u8) } else { None },
+                        t_sb: if mask & 4 != 0 { Some(st(s * 37)) } else { None },
+                        t_sa: if mask & 8 != 0 { Some(st(s * 91 + 1)) } else { None },
                     });
                 }
             }
